@@ -60,9 +60,9 @@ pure("C25",
 
 pure("C31",
      "totality / accept-by-overflow monitor: every text parser run on grammar-directed and damaged strings under overflow checks, result compared with per-notation reference grammars evaluated in arbitrary precision; release build repeats it (wrap-around shows as a wrong accepted value)",
-     "Exploration over strings: structured generation around each notation (component values at 0, max, max±1, 2^32, 2^64, 2^128, 40-400 digits, signs, leading zeros, NaN/inf/1e400, names of 0-40 letters, spacers everywhere) plus junk insertion. Parsers: Sat (integer, decimal, degree, percentile, name), Rune, SpacedRune, RuneId, Decimal (+to_integer), SatPoint, InscriptionId, Outgoing. Explorer URL queries are exercised through the same FromStr impls, not over HTTP. A parser rejecting a denoting string is not a violation of this property.",
+     "Exploration over strings: structured generation around each notation (component values at 0, max, max±1, 2^32, 2^64, 2^128, 40-400 digits, signs, leading zeros, NaN/inf/1e400, names of 0-40 letters, spacers everywhere) plus junk insertion. Parsers: Sat (integer, decimal, degree, percentile, name), Rune, SpacedRune, RuneId, Decimal (+to_integer), SatPoint, InscriptionId, Outgoing. Two shards in eight send the same generated strings to the explorer's query parsers over HTTP (23 routes of an in-process server: /sat, /r/sat/../at/.., /inscription, /rune, /block, /output, /satpoint, /search, page numbers, ...): every request must get an answer (a handler panic shows as a dropped connection) and /sat/<s> may answer 200 only with the sat the string denotes. A parser rejecting a denoting string is not a violation of this property.",
      "for each generated string: panic => violation; Ok(v) where the reference grammar says the string denotes nothing or another value => violation. distinct = (parser, outcome class, length, punctuation count).",
-     {"evaluations": 200000, "sat-degree_accept": 500, "sat-percentile_accept": 200, "decimal_accept": 2000, "spaced-rune_accept": 2000, "outgoing_accept": 500, "satpoint_accept": 1000, "inscription-id_accept": 1000},
+     {"evaluations": 200000, "sat-degree_accept": 500, "sat-percentile_accept": 200, "decimal_accept": 2000, "spaced-rune_accept": 2000, "outgoing_accept": 500, "satpoint_accept": 1000, "inscription-id_accept": 1000, "http-sat_accept": 100, "http-search_status_300": 200, "http-runes-page_status_200": 100},
      miri=False, budget_quick=15)
 
 pure("C34",
